@@ -8,8 +8,8 @@ through the real factory; a disabled filter's content is the real `if false { in
 from pyvc.api import (native, sym_str, sym_bool, sym_int, opaque, prove, assume, note, implies, both, either, neg, same)
 from sievelib import commands, factory
 
-OPS = ["filter_exists", "addfilter", "updatefilter", "replacefilter", "getfilter", "removefilter", "enablefilter",
-       "disablefilter", "is_filter_disabled", "movefilter_up", "movefilter_down"]
+OPS = ["filter_exists", "addfilter", "updatefilter", "replacefilter", "replacefilter_with_description", "getfilter", "removefilter",
+       "enablefilter", "disablefilter", "is_filter_disabled", "movefilter_up", "movefilter_down"]
 
 
 @native
@@ -45,7 +45,7 @@ def build(n):
         en = True if sym_bool("enabled%d" % i) else False
         inner = fresh_content()
         content = inner if en else wrap_disabled(inner)
-        fs.filters += [{"name": nm, "content": content, "enabled": en}]
+        fs.filters += [{"name": nm, "content": content, "enabled": en, "description": sym_str("description%d" % i)}]
         names.append(nm)
         flags.append(en)
         inners.append(inner)
@@ -53,7 +53,7 @@ def build(n):
 
 
 def view(fs):
-    return [(f["name"], f["enabled"], f["content"]) for f in fs.filters]
+    return [(f["name"], f["enabled"], f["content"], f.get("description")) for f in fs.filters]
 
 
 def index_of(names, target):
@@ -80,7 +80,7 @@ def same_view(v1, v0):
         return False
     ok = True
     for i in range(len(v0)):
-        ok = ok and same(v1[i][0], v0[i][0]) and (v1[i][1] is v0[i][1]) and (v1[i][2] is v0[i][2])
+        ok = ok and same(v1[i][0], v0[i][0]) and (v1[i][1] is v0[i][1]) and (v1[i][2] is v0[i][2]) and same(v1[i][3], v0[i][3])
     return ok
 
 
@@ -93,6 +93,7 @@ def h_op(op, n):
     r = None
     newname = None
     repl = None
+    newdesc = None
     try:
         if op == "filter_exists":
             r = fs.filter_exists(target)
@@ -105,6 +106,12 @@ def h_op(op, n):
             newname = sym_str("newname")
             repl = fresh_content()
             r = fs.replacefilter(target, repl, newname)
+        elif op == "replacefilter_with_description":
+            newname = sym_str("newname")
+            repl = fresh_content()
+            newdesc = sym_str("new_description")
+            r = fs.replacefilter(target, repl, newname, newdesc)
+            op = "replacefilter"
         elif op == "getfilter":
             r = fs.getfilter(target)
         elif op == "removefilter":
@@ -162,8 +169,13 @@ def h_op(op, n):
                 if len(v1) == n:
                     for i in range(n):
                         if i != k:
-                            prove(same(v1[i][0], v0[i][0]) and v1[i][1] is v0[i][1] and v1[i][2] is v0[i][2], op + ".others-untouched")
+                            prove(same(v1[i][0], v0[i][0]) and v1[i][1] is v0[i][1] and v1[i][2] is v0[i][2] and same(v1[i][3], v0[i][3]),
+                                  op + ".others-untouched")
                     prove(same(v1[k][0], newname), op + ".renamed-in-place")
+                    if newdesc is not None:
+                        prove(same(v1[k][3], newdesc), op + ".description-replaced-when-given")
+                    else:
+                        prove(same(v1[k][3], v0[k][3]), op + ".description-kept-when-not-given")
                     prove(v1[k][1] is flags[k], op + ".enabled-status-kept")
                     prove(disabled_shape(v1[k][2]) is (not flags[k]), op + ".content-wrapped-iff-disabled")
                     if op == "replacefilter":
